@@ -25,6 +25,7 @@ func init() {
 func runC12(c *Ctx) {
 	defer c12IllegalChar(c)
 	defer c12OffsetScan(c)
+	defer c.shared("R9", "C01/R1", "every runtime error carries a position: the errors that leave the interpreter's entry points are SyntaxError / RuntimeError / JsonError values only — a raw error (an unwrapped `unknown variable`) has no line at all", keyHas("entry "), func(s *Ctx) { c01R1(s, scopeAgreement(s, "R2")) })
 	defer c12LineColArithmetic(c)
 	p := c.P
 	c.note("R1 position-funnel: Lexer.error, Parser.error and Evaluator.error each return {Message: msg, Line: G#1, Col: G#2, SrcLine: G#0} with G = one GetLineAndCol(lexer, offset) call; no other function of package lang allocates or stores into a SyntaxError / RuntimeError.")
